@@ -77,9 +77,9 @@ theorem C01_if (n : Net) (s : State) (a : Action) (u : Rat)
     (State.get (perform n s a u).1 a.target).access = max (s.get a.target).access a.grant := by
   obtain ⟨htreach, _⟩ := gate_pass_target hg
   have hmem := get_mem_of_reach htreach
-  obtain ⟨hsucc, hcomp, hac⟩ := hostRow_of_pre a (s.get a.target) hp hgr hacc
   have hk : a.kind = .exploit ∨ a.kind = .privesc := by
     revert hp; unfold hostPre; cases a.kind <;> simp
+  obtain ⟨hsucc, hcomp, hac⟩ := hostRow_of_pre a (s.get a.target) hp (hgr hk) hacc
   have hns : (a.kind == Kind.subnetScan) = false := by rcases hk with h | h <;> simp [h]
   have hperf : perform n s a u = ((effect n s a).1, (effect n s a).2, drawsNeeded s a) := by
     unfold perform; simp [hg, hch]
@@ -110,7 +110,7 @@ theorem stepRow_accOk (n s a u r) (hg : ActOk a) (hr : r.access ≤ 2) :
       · simp only []
         have : (if r.addr == a.target then hostRow a r else r).access ≤ 2 := by
           split
-          · exact (hostPerform_mono r a hg.2 hg.1 hr).2.1
+          · exact (hostPerform_mono r a hg hr).2.1
           · exact hr
         split <;> simpa using this
   · exact hr
